@@ -584,6 +584,7 @@ func space4() {
 		{"uint", func(v int) interface{} { return uint(v) }}, {"uint8", func(v int) interface{} { return uint8(v) }},
 		{"uint16", func(v int) interface{} { return uint16(v) }}, {"uint32", func(v int) interface{} { return uint32(v) }},
 		{"uint64", func(v int) interface{} { return uint64(v) }}, {"named int type", func(v int) interface{} { return namedInt(v) }},
+		{"uintptr", func(v int) interface{} { return uintptr(v) }},
 	}
 	if !hc.Mine(0) {
 		return
@@ -610,9 +611,26 @@ func space4() {
 // row)
 type namedString string
 
+type namedBool bool
+
 func space5() {
 	if !hc.Mine(0) {
 		return
+	}
+	// a truth value is 1 or 0, also when held in a named bool type
+	for _, v := range []bool{false, true} {
+		for _, prog := range []string{"%p1%d", "%?%p1%tyes%eno%;"} {
+			w.R.Evaluations++
+			resetStatics()
+			n := map[bool]int{false: 0, true: 1}[v]
+			ref := (&rt.Machine{}).Eval(prog, n)
+			for _, p := range []interface{}{v, namedBool(v)} {
+				got, pn := evalImpl(prog, []interface{}{p})
+				if pn != nil || (ref.Unspecified == "" && got != ref.Out) {
+					w.Violation("param-type:bool", fmt.Sprintf("TParm(%q, %T(%v)) = %q (panic %v), terminfo(5) gives %q for the number %d", prog, p, v, got, pn, ref.Out, n), map[string]interface{}{"prog": prog, "bool": v})
+				}
+			}
+		}
 	}
 	// a string held in a named string type is that string
 	for _, prog := range []string{"%p1%s", "%p1%l%d", "<%p1%s|%p2%s>"} {
@@ -622,6 +640,13 @@ func space5() {
 		got, pn := evalImpl(prog, []interface{}{namedString("http://x"), namedString("id")})
 		if pn != nil || (ref.Unspecified == "" && got != ref.Out) {
 			w.Violation("param-type:named string type", fmt.Sprintf("TParm(%q, namedString(\"http://x\"), namedString(\"id\")) = %q (panic %v), terminfo(5) gives %q for these strings", prog, got, pn, ref.Out), map[string]interface{}{"prog": prog})
+		}
+	}
+	// %l is strlen: the number of bytes, also of a string holding multi-byte characters
+	for _, str := range []string{"h\u00e9llo", "\u65e5\u672c\u8a9e", "a\U0001F600", "\xff\xfe"} {
+		for _, prog := range []string{"%p1%l%d", "%p1%l%{6}%=%t=%e#%;", "%p1%s:%p1%l%d"} {
+			resetStatics()
+			compare(tcase{prog: prog, params: []interface{}{str}, origin: "string parameter with multi-byte characters"}, "strlen-bytes")
 		}
 	}
 	progs := []string{"\x1b[%i%p1%d;%p2%dH", "\x1b[%i%p1%dG", "%i%p2%d", "%p1%d,%p2%d,%p3%d", "%i%p1%d%p2%d%p9%d", "%?%p2%t2%e-%;%p1%d", "%p2%{5}%+%d", "%i%p1%p2%+%d"}
